@@ -1499,6 +1499,11 @@ class RTCSctpTransport(AsyncIOEventEmitter):
             for stream_id in list(self._data_channels.keys()):
                 self._data_channel_closed(stream_id)
 
+            # including those which were still waiting for a stream id
+            for channel, _, _ in self._data_channel_queue:
+                channel._setReadyState("closed")
+            self._data_channel_queue.clear()
+
             # no more events will be emitted, so remove all event listeners
             # to facilitate garbage collection.
             self.remove_all_listeners()
